@@ -215,6 +215,14 @@ def against_1v2(px: int, py: int, ax: int, ay: int, bx: int, by: int, strict: bo
   return _check_against([[px], [py]], [[ax, bx], [ay, by]], strict, (px, py, ax, ay, bx, by, strict))
 
 
+def against_2v1(px: int, py: int, qx: int, qy: int, ax: int, ay: int, strict: bool) -> bool:
+  """
+  pre: True
+  post: _
+  """
+  return _check_against([[px, qx], [py, qy]], [[ax], [ay]], strict, (px, py, qx, qy, ax, ay, strict))
+
+
 def against_2v2(px: int, py: int, qx: int, qy: int, ax: int, ay: int, bx: int, by: int, strict: bool) -> bool:
   """
   pre: True
